@@ -2376,7 +2376,7 @@ class Attribute(object):
                 elif not is_reverse_call: attr.update_reverse(obj, old_val, new_val, undo_funcs)
                 elif old_val not in (None, NOT_LOADED):
                     if not reverse.is_collection:
-                        if new_val is not None:
+                        if new_val is not None and old_val is not obj:
                             if reverse.is_required: throw(ConstraintError,
                                 'Cannot unlink %r from previous %s object, because %r attribute is required'
                                 % (old_val, obj, reverse))
